@@ -1,5 +1,29 @@
 """Shared by C01 and C10: scenario generation for harness/xfer, parallel execution with crash containment,
-projection of raw driver traces to the abstract events of Trace_Transfer.tla, and the TLC judge loop."""
+projection of raw driver traces to the abstract events of Trace_Transfer.tla, and the TLC judge loop.
+
+Scenario families (gen_scenarios; every family rotates over the layout classes and both picker modes):
+  honest / listen            one honest seeder (dialling in / dialled by rain)
+  sole_corrupt, sole_corruptclose, liar_and_honest, partial_liars, ignoring, dropping
+                             corrupting / protocol-violating / vanishing peers next to an honest seeder; ban + no reuse expected
+  wronghash                  metainfo hash of one piece wrong in one byte: honest data of that piece must be refused
+  split_have, choke_inflight, ws_only, ws_and_peer, ws_corrupt, ws_and_liar, ws_and_staller
+                             source mixes (peers with partial bitfields, choke with blocks in flight, web seeds honest/slow/erroring/corrupt)
+  stopstart                  Stop + Start while a piece write is blocked in the storage
+  write_fault                the N-th storage write FAILS (I/O error) on a hash-OK piece: the torrent stops with the error; Start again,
+                             honest sources reconnect; claims (bitfield, have, stats, resume) are judged against storage truth all along,
+                             completion is expected afterwards
+  damage_verify_start        after completion: Stop, one piece damaged in storage, Verify, Start: the piece must be reported missing,
+                             fetched again, and completion reported only when the files are right again
+  prefill                    .torrent added on top of a partly right / partly wrong / zero-filled / partly absent copy of the files
+  magnet                     added by magnet link (peers serve ut_metadata), honest seeder alone or next to a liar
+  magnet_prefill             magnet link + pre-existing files: verification runs while the metadata peers are connected (their
+                             bitfield / have-all arrived before the metadata and must be replayed afterwards)
+  magnet_metastall           magnet link, ParallelMetadataDownloads peers that advertise ut_metadata, take the requests and stall for ever;
+                             an honest seeder joins later: the metadata must still arrive and the download complete
+  ws_pair_corrupt (heavy)    >= 48 pieces of 256 KiB (web-seed requests span several pieces), two web seeds, one serving an outdated copy
+                             (every piece wrong), no peer or a late honest peer: completion from the honest web seed
+  ws_many (heavy)            same size, multi-file, two honest web seeds (+ peer): ranges are split / stolen / truncated at file boundaries
+"""
 import json, os, random, re, subprocess, concurrent.futures as cf
 import vlib
 
@@ -24,20 +48,35 @@ def gen_scenarios(rng, n, focus):
         kw["id"] = sid
         out.append(kw)
 
+    def src_mix():
+        """honest sources for families whose point is not the source kind: peer (mostly), web seed, or both"""
+        x = rng.random()
+        if x < 0.6:
+            return [dict(honest)], []
+        if x < 0.8:
+            return [], [{"policy": "honest"}]
+        return [dict(honest)], [{"policy": "honest"}]
+
+    honest = {"name": "h", "ip": "127.0.0.9", "policy": "honest", "have": "all"}
     fams = []
     if focus == "c01":
         fams = ["sole_corrupt"] * 4 + ["sole_corruptclose"] * 3 + ["wronghash"] * 4 + ["liar_and_honest"] * 4 + ["ignoring"] * 3 + ["dropping"] * 3 + ["ws_corrupt"] * 2 + \
-               ["ws_and_liar"] * 2 + ["stopstart"] * 3 + ["partial_liars"] * 2 + ["honest"]
+               ["ws_and_liar"] * 2 + ["stopstart"] * 3 + ["partial_liars"] * 2 + ["honest"] + \
+               ["write_fault"] * 4 + ["damage_verify_start"] * 3 + ["magnet"] * 3 + ["magnet_prefill"] * 2 + ["prefill"] * 2
     else:
         fams = ["honest"] * 3 + ["ws_only"] * 3 + ["ws_and_peer"] * 2 + ["split_have"] * 2 + ["dropping"] * 2 + ["ignoring"] * 2 + \
-               ["listen"] * 1 + ["liar_and_honest"] * 2 + ["choke_inflight"] * 3 + ["ws_and_staller"] * 2
+               ["listen"] * 1 + ["liar_and_honest"] * 2 + ["choke_inflight"] * 3 + ["ws_and_staller"] * 2 + \
+               ["write_fault"] * 2 + ["damage_verify_start"] * 2 + ["magnet"] * 2 + ["magnet_prefill"] * 4 + ["prefill"] * 1 + \
+               ["magnet_metastall"] * 2
     k = 0
+    used = {}
     while len(out) < n:
         fam = fams[k % len(fams)]
-        lay = LAYOUTS[(k // len(fams) + k) % len(LAYOUTS)]
+        # every family walks through all layout classes (own counter per family, staggered start)
+        used[fam] = used.get(fam, -1) + 1
+        lay = LAYOUTS[(used[fam] + fams.index(fam)) % len(LAYOUTS)]
         k += 1
         seq = rng.random() < 0.4
-        honest = {"name": "h", "ip": "127.0.0.9", "policy": "honest", "have": "all"}
         if fam == "honest":
             add(layout=lay, seq=seq, peers=[dict(honest, noFast=rng.random() < 0.3)], honest=True)
         elif fam == "listen":
@@ -102,6 +141,58 @@ def gen_scenarios(rng, n, focus):
         elif fam == "stopstart":
             add(layout=lay, seq=seq, honest=True, timing=[{"when": "write-enter", "n": rng.randint(1, 3), "do": "stopstart"}],
                 peers=[dict(honest)], unit=16384)
+        elif fam == "write_fault":
+            ps, ws = src_mix()
+            add(layout=lay, seq=seq, honest=True, timing=[{"when": "write-enter", "n": rng.randint(1, 4), "do": "fail"}],
+                peers=ps, webseeds=ws, timeoutMs=12000)
+        elif fam == "damage_verify_start":
+            ps, ws = src_mix()
+            add(layout=lay, seq=seq, honest=True, after="damage_verify_start", damagePiece=rng.randint(0, 5),
+                peers=ps, webseeds=ws, timeoutMs=10000)
+        elif fam == "prefill":
+            ps, ws = src_mix()
+            add(layout=lay, seq=seq, honest=True, prefill=rng.choice(["partial", "onebad", "zeros", "somefiles"]), peers=ps, webseeds=ws)
+        elif fam == "magnet":
+            ps = [dict(honest)]
+            if rng.random() < 0.5:
+                pol = rng.choice(CORRUPT + IGNORING + DROPPING)
+                ps = [{"name": "liar", "ip": "127.0.0.2", "policy": pol, "k": rng.randint(0, 3), "have": "all",
+                       "meta": rng.choice(["", "no"])}, dict(honest, joinAfterMs=rng.choice([0, 0, 30]))]
+            add(layout=lay, seq=seq, honest=True, magnet=True, endgame=rng.choice([2, 20]), peers=ps)
+        elif fam == "magnet_prefill":
+            ps = [dict(honest, noFast=rng.random() < 0.3)]
+            if rng.random() < 0.4:      # a second honest peer that has no metadata to offer; its bitfield is queued as well
+                ps.append({"name": "h2", "ip": "127.0.0.10", "policy": "honest", "have": rng.choice(["all", "evens"]), "meta": "no"})
+            add(layout=lay, seq=seq, honest=True, magnet=True, prefill=rng.choice(["partial", "partial", "onebad", "zeros", "somefiles", "full"]),
+                peers=ps)
+        elif fam == "magnet_metastall":
+            hv = rng.choice(["none", "all"])
+            add(layout=lay, seq=seq, honest=True, magnet=True, timeoutMs=15000,
+                peers=[{"name": "s1", "ip": "127.0.0.2", "policy": "honest", "have": hv, "meta": "stall"},
+                       {"name": "s2", "ip": "127.0.0.3", "policy": "honest", "have": hv, "meta": "stall", "noFast": rng.random() < 0.3},
+                       dict(honest, joinAfterMs=rng.choice([150, 300, 600]))])
+    return out
+
+
+def gen_heavy(rng, n, first_id):
+    """A few scenarios on torrents of 48..72 pieces of 256 KiB (web-seed requests of 5% of the pieces span several pieces)."""
+    out = []
+    honest = {"name": "h", "ip": "127.0.0.9", "policy": "honest", "have": "all"}
+    for k in range(n):
+        np_ = rng.choice([48, 56, 65, 72])
+        sc = {"id": first_id + k, "unit": 16384, "seed": rng.randrange(1, 1 << 30), "timeoutMs": 30000, "honest": True,
+              "seq": rng.random() < 0.3, "peers": []}
+        if k % 3 != 2:
+            ws = [{"policy": "stale"}, {"policy": "honest"}]
+            if rng.random() < 0.5:
+                ws.reverse()
+            sc.update(layout="many%d" % np_, webseeds=ws, heavy="ws_pair_corrupt")
+            if k % 3 == 1:
+                sc["peers"] = [dict(honest, joinAfterMs=rng.choice([200, 500, 900]))]
+        else:
+            sc.update(layout="manymulti%d" % np_, webseeds=[{"policy": "honest"}, {"policy": rng.choice(["honest", "slow"])}], heavy="ws_many",
+                      peers=[dict(honest, joinAfterMs=rng.choice([0, 100]))] if rng.random() < 0.6 else [])
+        out.append(sc)
     return out
 
 
@@ -172,7 +263,8 @@ def project(raw_path, crashed_ids=()):
             return {"evens": [i for i in range(n) if i % 2 == 0], "odds": [i for i in range(n) if i % 2 == 1],
                     "firsthalf": list(range((n + 1) // 2)), "none": []}.get(kind or "all", list(range(n)))
         a.append({"ev": "init", "np": ini["np"], "plen": ini["plen"], "honest": bool(ini["honest"]),
-                  "good": [i for i, n in enumerate(ini.get("nonpad", [])) if n == 0],   # a piece without data is trivially correct in storage
+                  # a piece without data is trivially correct in storage; good0 = pieces already right in the pre-existing files
+                  "good": sorted(set([i for i, n in enumerate(ini.get("nonpad", [])) if n == 0]) | set(ini.get("good0") or [])),
                   "sid": sid,
                   "layout": ini["layout"],
                   "peers": [{"ip": p["ip"], "have": have_list(p.get("have"), ini["np"])} for p in ini["peers"]]})
@@ -206,12 +298,21 @@ def project(raw_path, crashed_ids=()):
                 a.append({"ev": "expect", "what": e["what"], "ok": bool(e["ok"]), "sentBad": e["sentBad"], "ip": e["ip"]})
             elif k == "redial":
                 a.append({"ev": "redial", "ip": e["ip"], "accepted": bool(e["accepted"])})
-            elif k == "disk":
-                a.append({"ev": "disk", "class": e["class"]})
+            elif k in ("disk", "disk-mutate"):
+                a.append({"ev": k, "class": e["class"]})
             elif k == "resume":
                 a.append({"ev": "resume", "bits": e["bits"]})
         out[sid] = a
     return out
+
+
+def fam_of(sc):
+    """family signature of a scenario (policies, sources, timing action, start mode) for violation signatures"""
+    return "+".join(sorted(p.get("policy", "?") + ("/meta-" + p["meta"] if p.get("meta") else "") for p in sc.get("peers", []))) + \
+        ("|ws:" + ",".join(w["policy"] for w in sc.get("webseeds", [])) if sc.get("webseeds") else "") + \
+        ("|timing" + ("-" + sc["timing"][0]["do"] if sc["timing"][0].get("do") != "stopstart" else "") if sc.get("timing") else "") + \
+        ("|magnet" if sc.get("magnet") else "") + ("|prefill-" + sc["prefill"] if sc.get("prefill") else "") + \
+        ("|after-" + sc["after"] if sc.get("after") else "")
 
 
 def judge(ctx, abstract, scen_by_id, own_prefixes, other_note):
@@ -242,10 +343,7 @@ def judge(ctx, abstract, scen_by_id, own_prefixes, other_note):
         pos = line - n
         ev = abstract[sid][pos - 1] if 0 < pos <= len(abstract[sid]) else {}
         sc = scen_by_id.get(sid, {})
-        fam = "+".join(sorted(p.get("policy", "?") for p in sc.get("peers", []))) + \
-              ("|ws:" + ",".join(w["policy"] for w in sc.get("webseeds", [])) if sc.get("webseeds") else "") + \
-              ("|timing" if sc.get("timing") else "")
-        sig = "tag=%s layout=%s fam=%s ev=%s" % (tag, sc.get("layout"), fam, ev.get("ev"))
+        sig = "tag=%s layout=%s fam=%s ev=%s" % (tag, re.sub(r"\d+$", "", sc.get("layout") or "?"), fam_of(sc), ev.get("ev"))
         if (sid, tag) in seen:
             continue
         seen.add((sid, tag))
